@@ -41,7 +41,10 @@ E2_TRUSTED = [
 
 
 def write_single_spec(ident, body, root):
-    G.write_tree(root, [("T", body)])
+    if str(ident).startswith("packet:"):
+        G.write_tree(root, [], packet_bodies=[("Act", body)])
+    else:
+        G.write_tree(root, [("T", body)])
 
 
 class E2Check:
@@ -133,6 +136,8 @@ class E2Check:
         samples = []
         crashes = []
         bodies = dict(pipe["accept"])
+        for ident, body in list(bodies.items()):
+            bodies["packet:" + ident] = body
         for task, out in pipe["results"]:
             if out.get("crash"):
                 crashes.append(out["generator_error"])
